@@ -88,6 +88,14 @@ def pick_alphabet(rng, groups, hashes):
             keys.append(k)
     if rng.random() < 0.3 and () not in keys:
         keys[rng.randrange(len(keys))] = ()
+    if rng.random() < 0.3:
+        # a key and its NUL-extended twin: Remove(const Char_T *) of the twin names the short key
+        a = rng.randrange(len(keys))
+        base = keys[a][:keys[a].index(0)] if 0 in keys[a] else keys[a]
+        twin = base + (0, rng.choice([97, 98, 0, 255]))
+        b = rng.randrange(len(keys))
+        if b != a and twin not in keys and base == keys[a]:
+            keys[b] = twin
     rng.shuffle(keys)
     return keys
 
@@ -144,7 +152,7 @@ def gen_history(rng, nkeys, nops, inst, keys):
         return rng.randrange(1, 60) if hv else 0
 
     weights = [("I", 22), ("G", 8 if hv else 0), ("O", 4 if hv else 0), ("J", 4), ("R", 12), ("X", 5), ("Y", 4), ("N", 8), ("Z", 3),
-               ("E", 3), ("C", 3), ("L", 1), ("T", 1), ("V", 1), ("S", 4), ("P", 3), ("M", 2), ("U", 6)]
+               ("E", 3), ("C", 3), ("L", 1), ("T", 1), ("V", 1), ("W", 2), ("S", 4), ("P", 3), ("M", 2), ("U", 6)]
     names = [w[0] for w in weights]
     ws = [w[1] for w in weights]
     # a phase bias: sometimes a history that only grows, sometimes heavy removal
@@ -153,7 +161,8 @@ def gen_history(rng, nkeys, nops, inst, keys):
         k = rng.randrange(nkeys)
         if c == "I":
             v = val()
-            ops.append("I:%d:%d" % (k, v))
+            # all four Insert overloads ((Key&&|const Key&) x (Value&&|const Value&)); HList: Key&& / const Key&
+            ops.append("I:%d:%d:%d" % (k, v, rng.randrange(4)))
             mir.put(k, v)
         elif c in ("G", "O"):
             v = val()
@@ -166,8 +175,15 @@ def gen_history(rng, nkeys, nops, inst, keys):
         elif c == "R":
             if mir.l and rng.random() < 0.7:
                 k = rng.choice(mir.l)[0]
-            ops.append("R:%d:%d" % (k, rng.randrange(2)))
-            mir.remove(k)
+            var = rng.choice([0, 1, 2, 2])
+            ops.append("R:%d:%d" % (k, var))
+            if var == 2:
+                # Remove(const Char_T *): the key up to its first NUL (which may be another key of the alphabet, or none)
+                cut = keys[k][:keys[k].index(0)] if 0 in keys[k] else keys[k]
+                if cut in keys:
+                    mir.remove(keys.index(cut))
+            else:
+                mir.remove(k)
         elif c == "X":
             if not mir.clean:
                 ops.append("C")
@@ -213,6 +229,11 @@ def gen_history(rng, nkeys, nops, inst, keys):
             mir.clean = True
         elif c == "V":
             ops.append("V:%d" % rng.choice([0, 1, 2, 3, 4, 7, 8, 9]))
+            mir.l = []
+            mir.clean = True
+        elif c == "W":
+            # h = Table(n): explicit HashTable(SizeT) through the inherited constructors
+            ops.append("W:%d" % rng.choice([0, 1, 2, 3, 5, 8, 9, 17]))
             mir.l = []
             mir.clean = True
         elif c == "S":
@@ -412,7 +433,7 @@ def check(tier):
         "theorems": [{"name": n, "assumptions": a} for n, a in theorems],
         "evaluations": n_total + len(pool),
         "distinct_nontrivial": nontrivial,
-        "rule": "seeded random operation histories (<= %s operations; 17 operation kinds incl. merge by copy/move, rename, sort, resize, copy/move round trips) over alphabets of 3-8 keys, 75%% of them drawn from groups of keys whose implementation hashes agree modulo 2..64 (searched among %d candidate keys incl. the empty key, embedded NULs and bytes >= 128), the rest random bytes; three instances (HArray<String,String>, HArray<String,Value>, HList<String>); after EVERY step Has/GetValue/GetItem/GetKey/GetKeyIndex/ActualSize/iteration are compared with the model and judged by the association-list oracle; slot numbers only in states that cannot hold removed slots. non-trivial = a new key is inserted after a removal" % ("60" if tier == "quick" else "400", len(pool)),
+        "rule": "seeded random operation histories (<= %s operations; 17 operation kinds incl. merge by copy/move, rename, sort, resize, copy/move round trips) over alphabets of 3-8 keys, 75%% of them drawn from groups of keys whose implementation hashes agree modulo 2..64 (searched among %d candidate keys incl. the empty key, embedded NULs and bytes >= 128), the rest random bytes; three instances (HArray<String,String>, HArray<String,Value>, HList<String>); after EVERY step Has/GetValue/GetItem/GetKey/GetKeyIndex/ActualSize/iteration are compared with the model and judged by the association-list oracle; slot numbers only in states that cannot hold removed slots. Overloads and members that map to operations the model already has: the four HArray::Insert overloads (Key&&|const Key&) x (Value&&|const Value&) and HList::Insert(Key&&|const Key&) -> OInsert (the lvalue arguments must come back unchanged); Remove(ptr,len) / Remove(const Key&) / Remove(const Char_T*) -> ORemove (the C-string form names the key up to its first NUL; alphabets carry NUL-extended twins); h = Table(n) (explicit HashTable(SizeT)) -> OReserve n; GetValue(const Key&) and GetValue(ptr,len) must return the same pointer; begin()/end() of the non-const and const table (range-for) must visit Size() items, the live ones in the order and with the values of GetKey(i)/GetValue(i) (the model's get_slot sweep), a removed slot as Hash = 0 with the empty key and the default value. non-trivial = a new key is inserted after a removal" % ("60" if tier == "quick" else "400", len(pool)),
         "samples": [cases[0][:300], cases[len(cases) // 2][:300], cases[-1][:300]],
         "input_distribution": dist,
         "operation_steps_checked": steps,
